@@ -7,8 +7,9 @@ import re
 from harness.core import enc_str, dec_str
 
 PROPERTY = "C11"
-READY = False
-THEOREMS = []
+READY = True
+THEOREMS = ["C11.consts_ok", "C11.no_loss", "C11.read_render", "C11.norm_perm", "C11.keys_sorted", "C11.lines",
+            "C11.read_lines", "C11.text_determines_value"]
 RULE = ("one value per case, printed in both modes (text + line iteration) and once through the chunk generator at "
         "an offset; values: random nestings (depth <= 5), containers of 0,1,2,3,30,60,120 simple items, lists and "
         "dicts whose one-line length is the threshold -2..+2 at offsets 0..40, wrapped lists with a line that reaches "
@@ -181,14 +182,64 @@ def dec_val(tokens):
     return st[0]
 
 
-def mk_case(v, kind, off=0):
+_NUM = re.compile(r"-?(0|[1-9][0-9]*)(\.[0-9]+)?([eE][+-]?[0-9]+)?\Z")
+
+
+def _numbers_ok(v):
+    """every number of the value prints as a JSON number (finite): the domain of C11"""
+    if isinstance(v, list):
+        return all(_numbers_ok(x) for x in v)
+    if isinstance(v, dict):
+        return all(_numbers_ok(x) for x in v.values())
+    if isinstance(v, (int, float)) and not isinstance(v, bool):
+        return bool(_NUM.match(str(v)))
+    return True
+
+
+def mk_case(v, kind, off=0, rng=None):
+    assert _numbers_ok(v), "generator produced a non-finite number"
     e = enc_val(v)
-    return {"lines": ["pp j " + e, "ln j " + e, "pp p " + e, "ln p " + e, "gen j %d %s" % (off, e)],
-            "meta": {"kind": kind}}
+    lines = ["pp j " + e, "ln j " + e, "pp p " + e, "ln p " + e, "gen j %d %s" % (off, e), "gen p %d %s" % (off, e)]
+    # the specification-side reader against the real parsers, on the text the real printer gives
+    for mode in ("j", "p"):
+        try:
+            text = _printer(mode)(v, no_color=True).plain_text()
+        except Exception:
+            continue
+        if len(text) > 3000:
+            continue
+        lines.append("rd %s %s" % (mode, enc_str(text)))
+        if mode == "j" and rng is not None and len(text) <= 400:
+            for _ in range(2):
+                lines.append("rd j " + enc_str(_mutate(rng, text)))
+    return {"lines": lines, "meta": {"kind": kind}}
+
+
+_EDIT_CHARS = '[]{},:" \n0123456789-+.eEtrufalsn'
+
+
+def _mutate(rng, text):
+    """one or two random edits (delete / duplicate / swap / insert / replace)"""
+    t = list(text)
+    for _ in range(rng.choice([1, 1, 2])):
+        i = rng.randrange(len(t) + 1)
+        k = rng.randrange(5)
+        if k == 0 and i < len(t):
+            del t[i]
+        elif k == 1 and i < len(t):
+            t.insert(i, t[i])
+        elif k == 2 and i + 1 < len(t):
+            t[i], t[i + 1] = t[i + 1], t[i]
+        elif k == 3:
+            t.insert(i, rng.choice(_EDIT_CHARS))
+        elif i < len(t):
+            t[i] = rng.choice(_EDIT_CHARS)
+    return "".join(t)
 
 
 def observable(i, line):
-    return not line.startswith("gen ")      # the chunk generator is internal
+    # the chunk generator is internal; `rd` compares the specification's reader with json / ast
+    return not (line.startswith("gen ") or line.startswith("rd "))
 
 
 # ------------------------------------------------------------------ real code
@@ -216,11 +267,81 @@ def impl(case):
                 cp = pp._mk_palette(None, True, None)
                 chunks = pp._gen_ch_chunks_for_obj(cp, dec_val(rest[1:]), offset=int(rest[0]))
                 out.append("ok " + "|".join("N" if c is None else enc_str(c.text) for c in chunks))
+            elif op == "rd":
+                out.append(_rd(mode, dec_str(rest[0])))
             else:
                 out.append("bad-op")
         except Exception as e:
             out.append("err " + type(e).__name__)
     return out
+
+
+class _Num(str):
+    """a number token kept as its text"""
+
+
+def _no_constant(name):
+    raise ValueError(name)
+
+
+def _enc_read(x):
+    out = []
+
+    def go(y):
+        if y is True:
+            out.append("T")
+        elif y is False:
+            out.append("F")
+        elif y is None:
+            out.append("Z")
+        elif isinstance(y, _Num):
+            out.append("n:" + enc_str(y))
+        elif isinstance(y, str):
+            out.append("s:" + enc_str(y))
+        elif isinstance(y, _Pairs):
+            for k, w in y:
+                go(k)
+                go(w)
+            out.append("d:%d" % len(y))
+        elif isinstance(y, list):
+            for w in y:
+                go(w)
+            out.append("l:%d" % len(y))
+        else:
+            raise ValueError(type(y))
+    go(x)
+    return " ".join(out)
+
+
+def _rd(mode, text):
+    """what the real parser reads (numbers as their text, dicts as pair lists), or `none`"""
+    try:
+        if mode == "j":
+            got = json.loads(text, object_pairs_hook=_Pairs, parse_int=_Num, parse_float=_Num,
+                             parse_constant=_no_constant)
+        else:
+            ast.literal_eval(text)
+            tree = ast.parse(text, mode="eval")
+
+            def go(n):
+                if isinstance(n, ast.Constant):
+                    if type(n.value) in (int, float):
+                        return _Num(ast.get_source_segment(text, n))
+                    if n.value is True or n.value is False or n.value is None or type(n.value) is str:
+                        return n.value
+                    raise ValueError("constant")
+                if isinstance(n, ast.UnaryOp) and isinstance(n.op, ast.USub) and isinstance(n.operand, ast.Constant) \
+                        and type(n.operand.value) in (int, float):
+                    return _Num(ast.get_source_segment(text, n))
+                if isinstance(n, ast.List):
+                    return [go(e) for e in n.elts]
+                if isinstance(n, ast.Dict):
+                    return _Pairs((go(k), go(w)) for k, w in zip(n.keys, n.values))
+                raise ValueError("not a literal")
+            got = go(tree.body)
+        return "ok " + _enc_read(got)
+    except (ValueError, SyntaxError, RecursionError, TypeError, MemoryError):
+        return "none"
 
 
 # ------------------------------------------------------------------ oracle: the property itself
@@ -487,51 +608,66 @@ def _wrapped_list(rng, off, limit=150):
     return items
 
 
+def _limits():
+    """the thresholds of the tree under test (so that the generators aim at its boundaries)"""
+    try:
+        from harness import core
+        txt = translate(core.REPO)["AkVerif/Gen/C11.lean"]
+        g = {m.group(1): int(m.group(2)) for m in re.finditer(r"def (\w+) : Nat := (\d+)", txt)}
+        return g["oneLineDict"], g["oneLineList"], g["wrapLimit"]
+    except Exception:
+        return 200, 200, 150
+
+
 def gen_cases(rng, tier):
     quick = tier == "quick"
+    lim_d, lim_l, lim_w = _limits()
+
+    def mk(v, kind, off=0):
+        return mk_case(v, kind, off, rng)
     # 0. fixed small scope: every pair of simple values in a list / dict, empty and singleton containers
     atoms = ["", "a", 0, -1.5, True, False, None, [], {}]
     for a in atoms:
-        yield mk_case(a, "atom")
-        yield mk_case([a], "small")
-        yield mk_case({"k": a}, "small")
+        yield mk(a, "atom")
+        yield mk([a], "small")
+        yield mk({"k": a}, "small")
         for b in atoms:
-            yield mk_case([a, b], "small")
-            yield mk_case({"b": a, "a": b}, "small")
-            yield mk_case([[a], {"x": b}], "small")
+            yield mk([a, b], "small")
+            yield mk({"b": a, "a": b}, "small")
+            yield mk([[a], {"x": b}], "small")
     for ks in (["b", "a", "B", "A", "", " ", "10", "9", "é", "z", "中", "~"], _KEYS):
-        yield mk_case({k: i for i, k in enumerate(ks)}, "keys")
-        yield mk_case({k: [i, [i]] for i, k in enumerate(reversed(ks))}, "keys")
+        yield mk({k: i for i, k in enumerate(ks)}, "keys")
+        yield mk({k: [i, [i]] for i, k in enumerate(reversed(ks))}, "keys")
     # 1. random nestings
     for i in range(1500 if quick else 60000):
         v = _value(rng, 0, big=(i % 3 == 0))
         off = rng.choice([0, 0, 1, 2, 3, 7, 40])
-        yield mk_case(v, "random-big" if i % 3 == 0 else "random", off)
+        yield mk(v, "random-big" if i % 3 == 0 else "random", off)
     # 2. containers of n simple items
     for n in (0, 1, 2, 3, 30, 60, 120):
         for _ in range(12 if quick else 300):
             depth = rng.choice([0, 0, 1, 2, 5, 10, 20])
             mx = rng.choice([0, 3, 12, 30])
             v = [_simple(rng, mx) for _ in range(n)]
-            yield mk_case(_wrap(rng, v, depth), "list-n%d" % n, 2 * depth)
+            yield mk(_wrap(rng, v, depth), "list-n%d" % n, 2 * depth)
             d = {}
             while len(d) < n:
                 d[_rs(rng, 10) if n > 3 else _key(rng)] = _simple(rng, mx)
-            yield mk_case(_wrap(rng, d, depth), "dict-n%d" % n, 2 * depth)
+            yield mk(_wrap(rng, d, depth), "dict-n%d" % n, 2 * depth)
     # 3. one-line threshold, lists and dicts, every offset 0..40 (step 2 through nesting)
     for depth in range(0, 21):
         off = 2 * depth
         for delta in (-2, -1, 0, 1, 2):
             for _ in range(2 if quick else 40):
-                v = _list_one_line(rng, 200 - off + delta)
-                yield mk_case(_wrap(rng, v, depth), "list-threshold%+d" % delta, off)
-                d = _dict_one_line(rng, 200 - off + delta)
-                yield mk_case(_wrap(rng, d, depth), "dict-threshold%+d" % delta, off)
+                v = _list_one_line(rng, max(4, lim_l - off + delta))
+                yield mk(_wrap(rng, v, depth), "list-threshold%+d" % delta, off)
+                d = _dict_one_line(rng, max(4, lim_d - off + delta))
+                yield mk(_wrap(rng, d, depth), "dict-threshold%+d" % delta, off)
     # 4. wrapped lists around the wrap limit
     for _ in range(300 if quick else 10000):
         depth = rng.choice([0, 0, 1, 2, 3, 5, 10, 20])
-        v = _wrapped_list(rng, 2 * depth)
-        yield mk_case(_wrap(rng, v, depth), "wrap-limit", 2 * depth)
+        v = _wrapped_list(rng, 2 * depth, lim_w)
+        yield mk(_wrap(rng, v, depth), "wrap-limit", 2 * depth)
     # 5. mixtures: dict of wrapped lists / long dicts inside lists
     for _ in range(150 if quick else 5000):
         depth = rng.choice([0, 1, 2, 4])
@@ -539,29 +675,33 @@ def gen_cases(rng, tier):
         for _ in range(rng.randint(1, 4)):
             r = rng.random()
             if r < 0.4:
-                parts[_key(rng)] = _wrapped_list(rng, 2 * depth + 2)
+                parts[_key(rng)] = _wrapped_list(rng, 2 * depth + 2, lim_w)
             elif r < 0.7:
-                parts[_key(rng)] = _dict_one_line(rng, 200 - 2 * depth - 2 + rng.choice([-1, 0, 1]))
+                parts[_key(rng)] = _dict_one_line(rng, max(4, lim_d - 2 * depth - 2 + rng.choice([-1, 0, 1])))
             else:
                 parts[_key(rng)] = _value(rng, 2, True)
         v = parts if rng.random() < 0.6 else list(parts.values())
-        yield mk_case(_wrap(rng, v, depth), "mixture", 2 * depth)
+        yield mk(_wrap(rng, v, depth), "mixture", 2 * depth)
 
 
 def search_cases(rng, tier):
     """directed search: exact lengths around both thresholds at every offset, all item counts 0..8"""
+    lim_d, lim_l, lim_w = _limits()
+
+    def mk(v, kind, off=0):
+        return mk_case(v, kind, off, rng)
     for depth in range(0, 21):
         off = 2 * depth
-        for total in range(170 - off, 215 - off):
-            yield mk_case(_wrap(rng, _list_one_line(rng, total), depth), "search-list", off)
-            yield mk_case(_wrap(rng, _dict_one_line(rng, total), depth), "search-dict", off)
+        for total in range(max(4, min(lim_d, lim_l) - 30 - off), max(lim_d, lim_l) + 15 - off):
+            yield mk(_wrap(rng, _list_one_line(rng, total), depth), "search-list", off)
+            yield mk(_wrap(rng, _dict_one_line(rng, total), depth), "search-dict", off)
     for n in range(0, 9):
         for _ in range(50):
-            yield mk_case([_simple(rng, 6) for _ in range(n)], "search-small")
-            yield mk_case({_key(rng): _simple(rng, 6) for _ in range(n)}, "search-small")
+            yield mk([_simple(rng, 6) for _ in range(n)], "search-small")
+            yield mk({_key(rng): _simple(rng, 6) for _ in range(n)}, "search-small")
     for _ in range(3000):
         depth = rng.choice([0, 1, 2, 5])
-        yield mk_case(_wrap(rng, _wrapped_list(rng, 2 * depth), depth), "search-wrap", 2 * depth)
+        yield mk(_wrap(rng, _wrapped_list(rng, 2 * depth, lim_w), depth), "search-wrap", 2 * depth)
 
 
 # ------------------------------------------------------------------ shrinking, statistics
@@ -609,6 +749,11 @@ def shrink(case):
             yield {"lines": [l], "meta": case.get("meta", {})}
         return
     op, mode, *rest = lines[0].split()
+    if op == "rd":
+        t = dec_str(rest[0])
+        for i in range(len(t)):
+            yield {"lines": ["rd %s %s" % (mode, enc_str(t[:i] + t[i + 1:]))], "meta": case.get("meta", {})}
+        return
     head = [op, mode] + (rest[:1] if op == "gen" else [])
     v = dec_val(rest[1:] if op == "gen" else rest)
     for w in _smaller(v):
@@ -617,6 +762,8 @@ def shrink(case):
 
 def _first_value(case):
     op, mode, *rest = case["lines"][0].split()
+    if op == "rd":
+        return None
     return dec_val(rest[1:] if op == "gen" else rest)
 
 
@@ -629,7 +776,7 @@ def _has_container(v):
 
 
 def nontrivial(case, replies):
-    return _has_container(_first_value(case))
+    return _has_container(_first_value(case))      # (a shrunk `rd`-only case has no value: trivial)
 
 
 def tags(case, replies):
